@@ -119,6 +119,26 @@ let rd_key next = let t = next () in if t.[0] = 'i' then KInt (arg_z (String.sub
 let rd_amap next = rd_list next (fun () ->
   let k = rd_key next in let ts = rd_list next (fun () -> arg_str (next ())) in let b = arg_bool (next ()) in ((k, ts), b))
 let loc_s = function LMsgid -> "msgid" | LMsgidPlural -> "msgid_plural" | LMsgstr -> "msgstr" | LMsgstrN i -> "msgstr[" ^ zs i ^ "]"
+(* ---------- dates ---------- *)
+let derr_s = function Boilerplate -> "boilerplate" | Invalid -> "invalid"
+let dout_s (f : 'a -> string) = function
+  | Ok v -> "ok " ^ f v
+  | Err e -> "err " ^ derr_s e
+  | Crash c -> "crash " ^ crash_name c
+let arg_hint (s : string) = if s = "-" then None else Some (arg_str s)
+let dtag_s = function
+  | TDuplicate -> "dup"
+  | TNoField -> "nofield"
+  | TBoilerplate d -> "boiler " ^ out_str d
+  | TInvalid d -> "invalid " ^ out_str d
+  | TInvalidFix (d, f) -> "invalidfix " ^ out_str d ^ " " ^ out_str f
+  | TFuture d -> "future " ^ out_str d
+  | TAncient d -> "ancient " ^ out_str d
+let dtags_s l = String.concat " | " (List.map dtag_s l)
+(* a counted list of strings starting at a.(i): returns (list, next index) *)
+let arg_strs (a : string array) (i : int) =
+  let n = arg_int a.(i) in
+  (List.init n (fun k -> arg_str a.(i + 1 + k)), i + 1 + n)
 
 (* ---------- dispatch ---------- *)
 let handle (op : string) (a : string array) : string =
@@ -201,6 +221,32 @@ let handle (op : string) (a : string array) : string =
     let ivs = plan_message m in
     if ivs = [] then "none" else String.concat " | " (List.map (fun iv ->
       loc_s iv.iv_src ^ " -> " ^ loc_s iv.iv_dst ^ (if iv.iv_omit_ok then " omit-ok" else " strict")) ivs)
+  | "dfix" -> (* hint|- str *)
+    dout_s out_str (fix_date_real (arg_hint a.(0)) (arg_str a.(1)))
+  | "dre" ->
+    (match parse_date_re_real (arg_str a.(0)) with
+     | None -> "none"
+     | Some ((d, t), z) ->
+       "match " ^ out_str d ^ " " ^ out_str t ^ " " ^
+       (match z with
+        | ZNum (zh, zm) -> "num " ^ out_str zh ^ " " ^ out_str zm
+        | ZAbbr ab -> "abbr " ^ out_str ab
+        | ZNone -> "nozone"))
+  | "dbp" -> if bp_search_real (arg_str a.(0)) then "true" else "false"
+  | "dstrip" -> out_str (strip_real (arg_str a.(0)))
+  | "dord" ->
+    (match ord_real (arg_z a.(0)) (arg_z a.(1)) (arg_z a.(2)) with
+     | None -> "invalid" | Some o -> "ok " ^ zs o)
+  | "dparse" -> dout_s (fun st -> zs (stamp_minutes st)) (parse_date (arg_str a.(0)))
+  | "dhint" -> dout_s (fun () -> "") (hint_check (arg_str a.(0)))
+  | "dcheck" -> (* now tmpl bin  n ct...  n pot...  n po... *)
+    let (cts, i) = arg_strs a 3 in
+    let (pots, i) = arg_strs a i in
+    let (pos, _) = arg_strs a i in
+    (match check_dates_real (arg_z a.(0)) (arg_bool a.(1)) (arg_bool a.(2)) cts pots pos with
+     | Ok (x, y) -> "ok " ^ dtags_s x ^ " || " ^ dtags_s y
+     | Err e -> "err " ^ derr_s e
+     | Crash c -> "crash " ^ crash_name c)
   | _ -> "unknown-op " ^ op
 
 let () =
